@@ -25,6 +25,9 @@ def table():
         add("bernoulli", (l,), {}, stats.bernoulli(expit(l)), "disc", [0, 1], "int")
     for p in (0.1, 0.5, 0.85):
         add("flip", (p,), {}, stats.bernoulli(p), "disc", [False, True], "bool")
+    for p in (0.0, 1.0):     # boundary parameters (hard gates, masks): the certain outcome has log mass 0, the impossible one -inf
+        add("flip", (p,), {}, stats.bernoulli(p), "disc", [False, True], "bool")
+        T[-1]["edge"] = True
     for a, b in ((0.7, 2.0), (2.5, 1.5)):
         add("beta", (a, b), {}, stats.beta(a, b), "cont", [0.05, 0.3, 0.8, 0.97])
     for lg in ((0.0, 1.0, -1.0), (2.0, -3.0, 0.5, 0.0), (0.0, -150.0, -200.0)):
@@ -89,7 +92,7 @@ def check_density(G, ctx, spec):
             ctx.property_failure(None, f"{spec['name']}.logpdf raised {type(ex).__name__}: {str(ex)[:150]}", {**case, "x": np.asarray(x).tolist()})
             return
         want = ref_logp(spec, x)
-        if not (abs(got - want) <= 2e-4 * (1 + abs(want))):
+        if not (abs(got - want) <= 2e-4 * (1 + abs(want))) and not (got == want):       # (got == want covers -inf = -inf)
             ctx.property_failure(None, f"{spec['name']}{tuple(case['params'])}{case['kwargs'] or ''}.logpdf({np.asarray(x).tolist()}) = {got}, documented density gives {want}",
                                  {**case, "x": np.asarray(x).tolist(), "logpdf": got, "reference": want})
     # numeric normalisation
@@ -327,7 +330,7 @@ def check_lean_spec(G, ctx, spec, lean):
         except Exception as ex:
             ctx.property_failure(None, f"{name}: evaluating logpdf / the Lean spec term raised {type(ex).__name__}: {str(ex)[:140]}", {**case, "x": xs})
             return
-        if not (abs(got - want) <= 2e-4 * (1 + abs(want))):
+        if not (abs(got - want) <= 2e-4 * (1 + abs(want))) and not (got == want):
             ctx.correspondence_break(f"C13_spec_{name}_denotes term vs {name}.logpdf", f"x={xs}: logpdf {got}, Lean spec density gives {want}", {**case, "x": xs})
             ctx.property_failure(None, f"{name}({plist}).logpdf({xs}) = {got}, but the documented density (Lean term spec_{name}, proved normalised) gives {want}",
                                  {**case, "x": xs, "logpdf": got, "lean_spec": want})
@@ -343,7 +346,8 @@ def shard(ctx, idxs, n):
     for i in idxs:
         check_density(G, ctx, T[i])
         check_lean_spec(G, ctx, T[i], lean)
-        check_sampler(G, ctx, T[i], n)
+        if not T[i].get("edge"):
+            check_sampler(G, ctx, T[i], n)
 
 
 def source_table_obligation(ctx, audit):
